@@ -46,7 +46,19 @@ Definition orders_agree : bool :=
   && is "EnterEvent" AttrsAfterOwn && attr_after kEvent && has_own kEvent
   (* statements: attributes when the statement is left *)
   && is "ExitStatements" AttrsOnly && attr_last kText && attr_last kPlain && attr_last kBlock && attr_last kOneOf
-  && is "EnterAnnotation" OwnOnly && has_own kAnno.
+  && is "EnterAnnotation" OwnOnly && has_own kAnno
+  (* round 3: enum: own context, then attributes; alias and union: attributes first; union member and import statement:
+     own context only; a parameter is a field rule (EnterField / EnterField_type); a mixin records nothing *)
+  && is "EnterEnum" AttrsAfterOwn && attr_after kEnum && has_own kEnum
+  && is "EnterAlias" AttrsBeforeOwn && attr_before kAlias && has_own kAlias
+  && is "EnterUnion" AttrsBeforeOwn && attr_before kUnion && has_own kUnion
+  && is "EnterUnion_type" OwnOnly && has_own kMember
+  && is "EnterImport_stmt" OwnOnly && has_own kImport
+  && attr_after kParam && has_own kParam
+  && is "EnterMixin" Neither
+  && attr_last kDoc && has_own kDoc
+  (* the "..." body of an application: an endpoint without any context *)
+  && whatever_endpoint_records_nothing && negb (has_own kHolder).
 
 Example orders_ok : orders_agree = true.
 Proof. reflexivity. Qed.
@@ -56,8 +68,10 @@ Proof. reflexivity. Qed.
 Example end_fixups_ok : end_fixups = ["ExitApp_decl"; "ExitSimple_endpoint"; "ExitTable"; "popScope"].
 Proof. reflexivity. Qed.
 
-Example fix_end_kinds : map fix_end [kApp; kType; kEndpoint; kField; kEvent; kMethod; kText; kPlain; kBlock; kOneOf; kAnno; kNvp; kMod; kItem]
-                        = [true; true; true; false; false; false; false; false; false; false; false; false; false; false].
+Example fix_end_kinds : map fix_end [kApp; kType; kEndpoint; kField; kEvent; kMethod; kText; kPlain; kBlock; kOneOf; kAnno; kNvp; kMod; kItem;
+                                     kImport; kEnum; kAlias; kUnion; kMember; kDoc; kParam]
+                        = [true; true; true; false; false; false; false; false; false; false; false; false; false; false;
+                           false; false; false; false; false; false; false].
 Proof. reflexivity. Qed.
 
 (* every handler of an element that can be declared again appends to the element's list (decl_count):
@@ -65,4 +79,40 @@ Proof. reflexivity. Qed.
 Example appenders_ok :
   forallb (fun f => existsb (String.eqb f) appenders)
           ["EnterName_with_attribs"; "EnterTable"; "EnterField"; "EnterSimple_endpoint"; "EnterMethod_def"] = true.
+Proof. reflexivity. Qed.
+
+(* ---------- round 3: the position helper across the files of one compilation ---------- *)
+
+(* sourceCtxHelper holds the file name and the version and nothing else; the listener keeps it by value; get reads the
+   two fields, writes nothing, calls only the token accessors and touches no identifier outside its own scope: a context
+   is a function of the current file name and the two tokens - Model.sc_get / Model.helper *)
+Example helper_is_stateless :
+  (helper_fields, listener_sc_type, get_receiver_reads, get_receiver_writes, get_foreign_idents)
+  = (["filename string"; "version string"], "sourceCtxHelper", ["s.filename"; "s.version"], [], []).
+Proof. reflexivity. Qed.
+
+Example get_calls_ok :
+  get_calls = ["end.GetColumn"; "end.GetLine"; "end.GetText"; "int32"; "len"; "start.GetColumn"; "start.GetLine"].
+Proof. reflexivity. Qed.
+
+Definition switch_eqb (a b : switch_kind) : bool :=
+  match a, b with FreshLiteral, FreshLiteral | FieldAssign, FieldAssign | SwitchUnknown, SwitchUnknown => true | _, _ => false end.
+
+(* parseSpecs gives the listener a FRESH helper literal for every file, inside the loop over the files, and assigns
+   nothing else of the position state (lastEnd survives) - Model.switch_file *)
+Example file_switch_ok :
+  switch_eqb sc_switch FreshLiteral && sc_switch_in_file_loop = true
+  /\ parsespecs_listener_writes = ["listener.base"; "listener.sc"].
+Proof. split; reflexivity. Qed.
+
+(* lastEnd is written by getSrcCtxFor and by the text statement only - Model.walk / Model.own_ctx; the text statement
+   replaces the end column only when the statement is not a doc string (kDoc keeps get's end) *)
+Example lastend_writers_ok : lastend_writers = ["EnterText_stmt"; "getSrcCtxFor"] /\ text_end_only_in_nondoc_branch = true.
+Proof. split; reflexivity. Qed.
+
+(* end_exact_kind: the kinds whose End nothing overwrites *)
+Example end_exact_kinds :
+  filter end_exact_kind [kApp; kType; kField; kEndpoint; kEvent; kRestPath; kMethod; kText; kPlain; kBlock; kOneOf; kCase; kAnno; kNvp;
+                         kMod; kItem; kImport; kEnum; kAlias; kUnion; kMember; kDoc; kParam; kHolder; kQuery]
+  = [kField; kEvent; kMethod; kAnno; kNvp; kMod; kItem; kImport; kEnum; kAlias; kUnion; kMember; kParam; kQuery].
 Proof. reflexivity. Qed.
